@@ -188,6 +188,7 @@ func smInv(stack []stateEntry, last stateEntry) bool {
 //@ ensures result == len(m.Stack)+1
 
 //@ func (stateMachine).needDelim
+//@ inline
 //@ property C06 C20
 //@ ensures colon: (delim == ':') == (seObj(m.Last) && seCount(m.Last)%2 == 1)
 //@ ensures comma: (delim == ',') == (!(seObj(m.Last) && seCount(m.Last)%2 == 1) && seCount(m.Last) > 0 && next != '}' && next != ']' && len(m.Stack) != 0)
